@@ -210,6 +210,25 @@ func (a *Asm) ds(name string, op uint32, vdst, vdata, vaddr, off int) {
 	a.w32(name, 0xD8000000|op<<17|uint32(off)&0xffff, uint32(vdst)<<24|uint32(vdata)<<8|uint32(vaddr))
 }
 
+// DS emits any DS-format instruction: op, vdst, data0, data1, addr and the two 8-bit offsets (for the
+// one-address forms offset1:offset0 is the 16-bit offset).
+func (a *Asm) DS(name string, op int, vdst, data0, data1, vaddr, off0, off1 int) {
+	a.w32(name, 0xD8000000|uint32(op)<<17|uint32(off1&0xff)<<8|uint32(off0&0xff),
+		uint32(vdst)<<24|uint32(data1)<<16|uint32(data0)<<8|uint32(vaddr))
+}
+
+// SMem emits any SMEM load by opcode (0..4: dword, x2, x4, x8, x16) with an immediate or an SGPR offset.
+func (a *Asm) SMem(name string, op int, sdata, sbase int, imm bool, off uint32) {
+	w := 0xC0000000 | uint32(op)<<18 | uint32(sdata)<<6 | uint32(sbase>>1)
+	if imm {
+		w |= 1 << 17
+	}
+	a.w32(name, w, off&0xfffff)
+}
+
+// SMovB32 emits s_mov_b32 sdst, ssrc0.
+func (a *Asm) SMovB32(sdst int, s0 uint32) { a.sop1("s_mov_b32", 0, sdst, s0) }
+
 // DsWriteB32 emits ds_write_b32 v[vaddr], v[vdata] offset:off.
 func (a *Asm) DsWriteB32(vaddr, vdata, off int) { a.ds("ds_write_b32", 13, 0, vdata, vaddr, off) }
 
